@@ -122,8 +122,19 @@ impl LdpcDecoder for ScriptDecoder {
         let (e, success, code) = script_of(&sh.script, u, sh.k);
         let mut word: Vec<u8> = llrs.iter().map(|&x| (x <= 0.0) as u8).collect();
         debug_assert_eq!(word.len(), self.n);
-        for b in word.iter_mut().take(e) {
-            *b ^= 1;
+        // flip e distinct systematic positions chosen by the script (first, last and random ones)
+        if e > 0 {
+            let mut r = Rng::keyed(sh.script.seed, "C13", "positions", u);
+            let k = sh.k.min(word.len());
+            let mut pos: Vec<usize> = match r.below(3) {
+                0 => (0..e).collect(),
+                1 => (k - e..k).collect(),
+                _ => r.choose(k, e),
+            };
+            pos.sort_unstable();
+            for p in pos {
+                word[p] ^= 1;
+            }
         }
         if sh.script.delays {
             // heavy-tailed delay BEFORE returning: perturbs the arrival order at the collector
